@@ -436,6 +436,17 @@ def split_ub(reply):
 UB_BENIGN = ('shift-exponent', 'signed-integer-overflow', 'float-cast-overflow', 'shift-base', 'implicit', 'integer-divide-by-zero', 'float-divide-by-zero')
 
 
+def check_theorems_and_model(ctx):
+    """Re-check Properties_<pid>.vo and the extraction; rebuild modelrun_json when the extracted model is newer than the driver binary
+    (Generated/JsonConsts.v carries a behaviour switch the model follows)."""
+    ok = ctx.check_theorems(extra_targets=['Extract/Extract_json.vo'])
+    ml = os.path.join(ROOT, 'ocaml', 'json', 'model.ml'); exe = os.path.join(ROOT, 'build', 'modelrun_json')
+    if os.path.exists(ml) and (not os.path.exists(exe) or os.path.getmtime(ml) > os.path.getmtime(exe)):
+        rc, out = lib.sh([os.path.join(ROOT, 'bin', 'build_modelrun'), 'json'], timeout=900)
+        ctx.log('modelrun_json rebuilt: ' + out.strip()[-200:])
+    return ok
+
+
 EXPECTED_CFG = {'JCFG_allow_unquoted': 1, 'JCFG_allow_unquoted_list': 0, 'JCFG_allow_trailing_comma': 1, 'JCFG_wide_space': 0,
                 'JCFG_unaligned_access': 1, 'JCFG_use_sse4_2': 0, 'JCFG_char_is_signed': 1}
 
